@@ -41,7 +41,7 @@ CHECKS = {
          "small-scope exhaustive on trees, sampled beyond; acyclic trees only",
          "TLA+ spec + TLC exhaustive; spec->impl replay; impl->spec trace validation"),
  "C05": ("DESIGN.md section 6 C05",
-         "Func.tla: builder-generated programs around one function (scoped or not; for-in / if-else / return with and without value / recursion in the body; calls with and without output variable, with arguments, in condition position); TLC checks that the goto machine (function call stack with saved scope, return / end function, depth-tagged for-in frames) refines the tree-walking reference in which every call starts afresh and a scoped call is isolated; every emitted program is run on the real SDK and compared (emit trace incl. the argument, final variables); larger random programs are validated by TLC against the reference.",
+         "Func.tla: builder-generated programs around one function (scoped or not; for-in / if-else / return with and without value / recursion in the body; calls with and without output variable, with arguments, in condition position); TLC checks that the goto machine (function call stack with saved scope, return / end function, depth-tagged for-in frames) refines the tree-walking reference in which every call starts afresh and a scoped call is isolated; every emitted program is run on the real SDK and compared (emit trace incl. the argument, final variables); larger random programs and a fixed probe family (return out of two or three nested for-in loops, called repeatedly, also from inside a loop of the caller) are validated by TLC against the reference.",
          "small-scope exhaustive on programs (<=7 lines quick, <=9 thorough), one function per program; sampled beyond; the property's two open corners are skipped",
          "TLA+ spec + TLC exhaustive refinement check; spec->impl replay; impl->spec trace validation"),
  "C04": ("DESIGN.md section 6 C04",
